@@ -100,40 +100,7 @@ def run(prog, rep):
                         'string and stream MsgPack writers emit different bytes in %s(%s) for values %s' % (mkey[0], mkey[1], ', '.join(cell_str(c) for c, _, _ in diff[:6])),
                         {'string': str(diff[0][1]), 'stream': str(diff[0][2])}, func=ft.id, count=len(diff))
 
-    # ------------------------------------------------------------------ R6.3 floor split
-    n63 = 0
-    for f in sorted(prog.funcs.values(), key=lambda x: x.id):
-        if f.q != 'BitSerializer::Detail::To' or not f.params or 'CBinTimestamp &' not in f.tu['types'][f.params[-1]['t']] \
-                or f.tu['types'][f.params[-1]['t']].startswith('const'):
-            continue
-        rep.touch(f)
-        stores = []
-        for n in live_walk(f):
-            if n['k'] == 'BinaryOperator' and n.get('op') == '=':
-                lhs = strip(n['c'][0])
-                if lhs is not None and lhs['k'] == 'MemberExpr' and lhs.get('m') == 'Seconds':
-                    stores.append(n)
-        if not stores:
-            raise AnalysisBroken('R6.3: no store to CBinTimestamp::Seconds found in %s' % f.id)
-        subsecond = any(n['k'] == 'BinaryOperator' and n.get('op') == '=' and (strip(n['c'][0]) or {}).get('m') == 'Nanoseconds'
-                        and 'cv' not in n['c'][1] for n in live_walk(f))
-        if not subsecond:
-            continue   # period >= seconds: nanoseconds is the constant 0
-        n63 += 1
-        for st in stores:
-            producers = [strip_targs(f.callee(x)['q']) for x in f.walk(st['c'][1]) if x['k'] == 'CallExpr' and f.callee(x) is not None]
-            fl = any(p == 'std::chrono::floor' for p in producers)
-            adjusted = has_negative_adjustment(f)
-            site = '%s|%s' % (f.pq, 'time_point' if 'time_point' in f.id else 'duration')
-            if fl or adjusted:
-                rep.ok('R6.3', site, sample={'function': f.id[:150], 'seconds_from': producers, 'negative_remainder_adjustment': adjusted})
-            else:
-                rep.finding('R6.3', site, f.loc(st),
-                            'seconds are taken with %s (truncation toward zero): for instants before the epoch with a sub-second part the '
-                            'nanoseconds field becomes negative (spec: 0..999999999)' % (', '.join(p for p in producers if 'chrono' in p) or 'a truncating cast'),
-                            {'instantiation': f.id}, func=f.id)
-    if n63 == 0:
-        raise AnalysisBroken('R6.3: no sub-second instantiation of To(time_point|duration -> CBinTimestamp) in the analysed program')
+    check_floor_split(prog, rep)
 
     # R6.5 (a completeness check "declared == written" in the write scopes) is NOT armed: its absence does not by itself break the
     # property - no input was found for which the library writes fewer entries than FieldsCountVisitor / GetContainerSize announced -
@@ -294,3 +261,42 @@ def check_count_routes(prog, rep, rule='R6.6'):
                         % (short, rc, rw), func=cf.id)
     if n < 3:
         raise AnalysisBroken('%s: fewer than 3 classes with both a counter and a writer instantiation' % rule)
+
+
+def check_floor_split(prog, rep, rule='R6.3'):
+    # ------------------------------------------------------------------ R6.3 floor split
+    n63 = 0
+    for f in sorted(prog.funcs.values(), key=lambda x: x.id):
+        if f.q != 'BitSerializer::Detail::To' or not f.params or 'CBinTimestamp &' not in f.tu['types'][f.params[-1]['t']] \
+                or f.tu['types'][f.params[-1]['t']].startswith('const'):
+            continue
+        rep.touch(f)
+        stores = []
+        for n in live_walk(f):
+            if n['k'] == 'BinaryOperator' and n.get('op') == '=':
+                lhs = strip(n['c'][0])
+                if lhs is not None and lhs['k'] == 'MemberExpr' and lhs.get('m') == 'Seconds':
+                    stores.append(n)
+        if not stores:
+            raise AnalysisBroken(rule + ': no store to CBinTimestamp::Seconds found in %s' % f.id)
+        subsecond = any(n['k'] == 'BinaryOperator' and n.get('op') == '=' and (strip(n['c'][0]) or {}).get('m') == 'Nanoseconds'
+                        and 'cv' not in n['c'][1] for n in live_walk(f))
+        if not subsecond:
+            continue   # period >= seconds: nanoseconds is the constant 0
+        n63 += 1
+        for st in stores:
+            producers = [strip_targs(f.callee(x)['q']) for x in f.walk(st['c'][1]) if x['k'] == 'CallExpr' and f.callee(x) is not None]
+            fl = any(p == 'std::chrono::floor' for p in producers)
+            adjusted = has_negative_adjustment(f)
+            site = '%s|%s' % (f.pq, 'time_point' if 'time_point' in f.id else 'duration')
+            if fl or adjusted:
+                rep.ok(rule, site, sample={'function': f.id[:150], 'seconds_from': producers, 'negative_remainder_adjustment': adjusted})
+            else:
+                rep.finding(rule, site, f.loc(st),
+                            'seconds are taken with %s (truncation toward zero): for instants before the epoch with a sub-second part the '
+                            'nanoseconds field becomes negative (spec: 0..999999999)' % (', '.join(p for p in producers if 'chrono' in p) or 'a truncating cast'),
+                            {'instantiation': f.id}, func=f.id)
+    if n63 == 0:
+        raise AnalysisBroken(rule + ': no sub-second instantiation of To(time_point|duration -> CBinTimestamp) in the analysed program')
+
+
